@@ -71,7 +71,7 @@ def _world(chooser, nitems, ntasks, conc, latency, ev_kind, ev_step, ev_arg, ev2
 
     async def main():
         src = _Src(nitems, fail_call, log)
-        fail_delay = ev2_step if (ev_kind == 3 and ev2_step > 0) else 0      # (ev2_step is otherwise unused for a pause without follow-up)
+        fail_delay = ev2_step if (ev_kind in (1, 3) and ev2_step > 0) else 0      # (ev2_step is otherwise unused for a stop / a pause without follow-up)
         tasks = [_Task('t%d' % i, log, latency, fail_item if i == fail_task else -1, fail_delay) for i in range(ntasks)]
         pipe = Pipeline(src, tasks)
         pipe.concurrency = conc
@@ -451,6 +451,8 @@ HARNESSES = [
            'pre': ['ev_step <= 25 and fail_item >= 1 and 0 <= ev2_step <= 6']},
           {'tag': 'stop_then_fail', 'fix': _fx(nitems=3, ntasks=1, conc=2, latency=1, ev_kind=1, ev_arg=0, ev2_step=0, fail_task=0, fail_call=-1, p2=81, a2=1, a1=1),
            'pre': ['ev_step <= 25 and p1 <= 25 and fail_item >= 1']},
+          {'tag': 'stop_then_late_fail', 'fix': _fx(nitems=3, ntasks=1, conc=2, latency=1, ev_kind=1, ev_arg=0, fail_task=0, fail_call=-1, p2=81, a2=1, a1=1, p1=0),
+           'pre': ['ev_step <= 25 and fail_item >= 1 and 1 <= ev2_step <= 6']},
       ], 'thorough': [
           {'tag': 'plain_c%d' % c, 'fix': _fx(conc=c, **_NOEV, **_NOFAIL), 'pre': ['nitems >= 2']} for c in (1, 2, 3)] + [
           {'tag': 'stop_c%d_i%d' % (c, i), 'fix': _fx(nitems=i, conc=c, ev_kind=1, ev_arg=0, ev2_step=0, **_NOFAIL), 'pre': ['p2 >= 81 or p2 <= 40']}
